@@ -41,9 +41,11 @@ def residuals(s, r, t, k, heat, gamma_e=None):
     rho, u, P, e = (at_t[n][2] for n in names[:4])
     out = {}
     terms = [dt('density'), u*dr('density'), rho*dr('velocity'), k*rho*u/r]
-    out['mass'] = abs(sum(terms)) / (sum(abs(x) for x in terms) + 1e-300)
+    # each residual is normalised by the size of its terms plus the natural scale of the equation,
+    # so that identically vanishing terms (finite-difference noise) do not look like a violation
+    out['mass'] = abs(sum(terms)) / (sum(abs(x) for x in terms) + abs(rho)*(abs(u)/r + 1/abs(t if t else 1)) + 1e-300)
     terms = [dt('velocity'), u*dr('velocity'), dr('pressure')/rho]
-    out['momentum'] = abs(sum(terms)) / (sum(abs(x) for x in terms) + 1e-300)
+    out['momentum'] = abs(sum(terms)) / (sum(abs(x) for x in terms) + (u*u + abs(P/rho))/r + abs(u)/abs(t if t else 1) + 1e-300)
     terms = [dt('specific_internal_energy'), u*dr('specific_internal_energy'), P/rho*dr('velocity'), P/rho*k*u/r]
     if heat:
         K0, alpha, beta = heat
@@ -57,7 +59,7 @@ def residuals(s, r, t, k, heat, gamma_e=None):
             Fs.append(-K0 * f['density'][2]**alpha * f['temperature'][2]**(beta + 3) * Tr)
         Fr = d5(Fs[0], Fs[1], Fs[3], Fs[4], hh)
         terms += [Fr/rho, k*Fs[2]/r/rho]
-    out['energy'] = abs(sum(terms)) / (sum(abs(x) for x in terms) + 1e-300)
+    out['energy'] = abs(sum(terms)) / (sum(abs(x) for x in terms) + 1e-9*(abs(e)+abs(P/rho))*(abs(u)/r + 1/abs(t if t else 1)) + 1e-300)
     out['terms_energy'] = [float(x) for x in terms]
     return {k_: (float(v) if not isinstance(v, list) else v) for k_, v in out.items()}
 
@@ -118,8 +120,9 @@ def pde_oracle(genfile, pfx, spec=None, rt=None, heat=None, kfun=None, thresh=1e
         for c, o in zip(cases, res):
             if 'error' in o:
                 continue
-            worst = max(o['mass'], o['momentum'], o['energy'])
-            if worst > thresh and worst == worst:
+            vals = [o[k_] for k_ in ('mass', 'momentum', 'energy') if o[k_] == o[k_]]
+            worst = max(vals) if vals else 0.0
+            if worst > thresh:
                 fails.append({'solver': c['class'], 'module': c['module'], 'params': c['params'], 'r': c['r'], 't': c['t'],
                               'normalised_residuals': {k_: o[k_] for k_ in ('mass', 'momentum', 'energy')},
                               'how': 'finite-difference residual of the returned fields in the documented PDE '
